@@ -239,7 +239,7 @@ fn leaves() -> Vec<(String, tir::Expression)> {
         ("Struct".into(), E::Struct(tir::StructExpr { constructor: 200, fields: vec![E::Number(1)] })),
         ("Map".into(), E::Map(vec![(E::Number(1), E::Number(2))])),
     ];
-    for n in [0i128, 1, -1, 3, 4, 1 << 32, 1 << 63, 1 << 64, i128::MAX, i128::MIN] {
+    for n in [0i128, 1, 2, -1, 3, 4, 255, 256, 257, 259, 1 << 32, 1 << 63, 1 << 64, i128::MAX, i128::MIN] {
         v.push((format!("Number({n})"), E::Number(n)));
     }
     for l in [0usize, 1, 4, 27, 28, 29, 32, 33, 56, 57, 58, 64] {
@@ -269,7 +269,13 @@ fn directive_tx(name: &str, keys: &[&str], key: &str, leaf: tir::Expression) -> 
             _ => E::None,
         }
     };
-    let data: std::collections::HashMap<String, E> = keys.iter().map(|k| (k.to_string(), if *k == key { leaf.clone() } else { usual(k) })).collect();
+    // the optional keys (`redeemer`, `datum`) are left out unless they hold the leaf: a `None` there would end the
+    // compilation of the directive before its other keys are looked at
+    let data: std::collections::HashMap<String, E> = keys
+        .iter()
+        .filter(|k| **k == key || !matches!(**k, "redeemer" | "datum"))
+        .map(|k| (k.to_string(), if *k == key { leaf.clone() } else { usual(k) }))
+        .collect();
     tx.adhoc.push(tir::AdHocDirective { name: name.to_string(), data });
     tx
 }
